@@ -127,8 +127,10 @@ func (w *world) admit(a simrt.Action) {
 	var peer *p2p.Peer
 	var err, perr error
 	doneN, doneP := false, false
-	w.reg.GoAs(inc, "admit-node", func() { peer, err = inc.Sw.AddPeerWithConnection(l.A, false); doneN = true })
-	w.reg.GoAs(inc, "admit-puppet", func() { _, perr = puppet.AddPeerWithConnection(l.B, true); doneP = true })
+	// the node either accepted the connection or dialed it: the rules are the same
+	outbound := a.A%2 == 1
+	w.reg.GoAs(inc, "admit-node", func() { peer, err = inc.Sw.AddPeerWithConnection(l.A, outbound); doneN = true })
+	w.reg.GoAs(inc, "admit-puppet", func() { _, perr = puppet.AddPeerWithConnection(l.B, !outbound); doneP = true })
 	synctest.Wait()
 	for i := 0; i < 30 && !(doneN && doneP); i++ {
 		time.Sleep(time.Second) // handshake deadlines
@@ -139,6 +141,9 @@ func (w *world) admit(a simrt.Action) {
 	synctest.Wait()
 	w.out.Evals["C20.admission"]++
 	w.out.Probes["admit:"+a.S]++
+	if outbound {
+		w.out.Probes["admit-outbound"]++
+	}
 	admitted := doneN && err == nil && peer != nil
 	w.lg.Add("admit %s replica %d admitted=%v reference-refuses=%q", a.S, a.N, admitted, refuse)
 	if os.Getenv("VERIF_DEBUG_SEED") != "" {
